@@ -525,6 +525,23 @@ func c09NeedParens(child *C09Expr, parent *C09Op, right bool) bool {
 	return true
 }
 
+// c09TieRightOK: the right operand is an application of a binary operator of the SAME level as its parent
+// (arithmetic next to arithmetic, comparison next to comparison ...): written without brackets the pair
+// groups to the right, `a - b - c` == `a - (b - c)`, `a * b - c` == `a * (b - c)` (operators of one level are
+// taken off the stack only by an operator that binds strictly looser). Binding forms keep their own rules.
+func c09TieRightOK(child *C09Expr, parent *C09Op) bool {
+	if child.Kind != C09Bin || child.NoWrap || child.prec() != parent.Prec() {
+		return false
+	}
+	for _, o := range []*C09Op{child.Op, parent} {
+		switch o.Name {
+		case "BIND", "AS", "CMAP", "REDUCE", "BLOCK", "PIPE", "UNION":
+			return false
+		}
+	}
+	return true
+}
+
 // ---------------------------------------------------------------------------------------
 // Printing
 // ---------------------------------------------------------------------------------------
@@ -540,28 +557,32 @@ type C09Site struct {
 }
 
 type C09Mode struct {
-	Full    bool             // fully parenthesised spelling
-	WrapLow bool             // bracket min/max atoms that sit under an operator of precedence >= 40
-	Extra   map[int]int      // node id -> redundant parenthesis layers
-	Special map[*C09Expr]int // 1 = operator printed AFTER its operands, 2 = reference spelling of the same
+	Full     bool             // fully parenthesised spelling
+	TieRight bool             // a RIGHT operand of equal precedence is left unbracketed: equal levels group to the right (frozen tie rule)
+	WrapLow  bool             // bracket min/max atoms that sit under an operator of precedence >= 40
+	Extra    map[int]int      // node id -> redundant parenthesis layers
+	Special  map[*C09Expr]int // 1 = operator printed AFTER its operands, 2 = reference spelling of the same
 }
 
 type C09Printed struct {
 	Toks  []C09Tok
 	Sites []C09Site
+	Ties  int
 }
 
 type c09Printer struct {
-	m     C09Mode
-	toks  []C09Tok
-	sites []C09Site
-	n     int
+	ties   int
+	follow int // precedence of the operator that follows the node being printed at the same bracket level (0: none)
+	m      C09Mode
+	toks   []C09Tok
+	sites  []C09Site
+	n      int
 }
 
 func C09Print(e *C09Expr, m C09Mode) C09Printed {
 	p := &c09Printer{m: m}
 	p.node(e, m.Full && e.Kind != C09Atom, nil)
-	return C09Printed{p.toks, p.sites}
+	return C09Printed{p.toks, p.sites, p.ties}
 }
 
 func (p *c09Printer) tok(text string, k C09TokKind, tight bool) {
@@ -592,7 +613,12 @@ func (p *c09Printer) node(e *C09Expr, need bool, parent *C09Op) (from, to int) {
 	for i := 0; i < layers; i++ {
 		p.tok("(", C09OpenParen, false)
 	}
+	saveFollow := p.follow
+	if layers > 0 || e.Kind != C09Bin {
+		p.follow = 0 // brackets of any kind end the level
+	}
 	p.bare(e)
+	p.follow = saveFollow
 	for i := 0; i < layers; i++ {
 		p.tok(")", C09CloseParen, true)
 	}
@@ -641,9 +667,19 @@ func (p *c09Printer) bare(e *C09Expr) {
 			p.tok(")", C09CloseParen, true)
 			return
 		}
+		outerFollow := p.follow
+		p.follow = e.Op.Prec()
 		lf, lt := p.node(e.L, c09NeedParens(e.L, e.Op, false), e.Op)
+		p.follow = outerFollow
 		oi := p.opTok(e.Op)
-		rf, rt := p.node(e.R, c09NeedParens(e.R, e.Op, true), e.Op)
+		needR := c09NeedParens(e.R, e.Op, true)
+		// (only when no operator of this level or a tighter one follows the pair at the same bracket level: it would
+		// join the right-hand group)
+		if needR && p.m.TieRight && outerFollow < e.Op.Prec() && c09TieRightOK(e.R, e.Op) {
+			needR = false
+			p.ties++
+		}
+		rf, rt := p.node(e.R, needR, e.Op)
 		p.sites = append(p.sites, C09Site{Kind: "bin", Name: e.Op.Name, OpIdx: oi, LF: lf, LT: lt, RF: rf, RT: rt})
 	case C09Call:
 		switch p.m.Special[e] {
